@@ -1,7 +1,7 @@
 (* CodeGenF.v — the script-to-program translation of CodeGen.v run on the kernel's binary64 floats, and the
    in-Coq comparison used by the correspondence K_eval of property C01.  Definitions only.
 
-   A decimal literal  d…d.d…d  with all digits m < 2^53 and at most 15 digits after the dot is converted as
+   A decimal literal  d…d.d…d  with all digits m <= 2^53 and at most 15 digits after the dot is converted as
    m / 10^k : both operands are exactly representable, so the IEEE division is the correctly rounded value of the
    literal, which is what CPython's float() / the compiler computes (Clinger's fast path).  Anything else is NaN
    (fail-closed: such a case shows up as a disagreement, never as an agreement; the harness does not send them). *)
@@ -23,11 +23,16 @@ Fixpoint frac_digits (after_dot : bool) (s : string) : nat :=
                   else ((if after_dot then 1 else 0) + frac_digits after_dot r)%nat
   end.
 Definition float_of_Z (z : Z) : float := PrimFloat.of_uint63 (Uint63.of_Z z).
-Definition lit_float (s : string) : float :=
+(* text of a folded integer (optional `-`, digits): 0 - m is exact and has the sign an int has (no negative zero) *)
+Definition lit_float_pos (s : string) : float :=
   let m := digits_val 0 s in
   let k := frac_digits false s in
-  if (m <? 2 ^ 53)%Z && (k <=? 15)%nat then PrimFloat.div (float_of_Z m) (float_of_Z (10 ^ Z.of_nat k)) else nan.
-
+  if (m <=? 2 ^ 53)%Z && (k <=? 15)%nat then PrimFloat.div (float_of_Z m) (float_of_Z (10 ^ Z.of_nat k)) else nan.
+Definition lit_float (s : string) : float :=
+  match s with
+  | String c r => if Ascii.eqb c "-" then PrimFloat.sub (float_of_Z 0) (lit_float_pos r) else lit_float_pos s
+  | "" => nan
+  end.
 Definition fprogram_of_script (script : string) : option (list string * fprogram) :=
   match program_of_script script with
   | Some (names, p) => Some (names, program_map string float lit_float p)
